@@ -199,7 +199,12 @@ func Run(j *job.Job, s *job.Sink) {
 		r := prng.For(j.Seed, "latefaults", j.Family, c)
 		var pool []tmpl
 		for _, x := range templates {
-			if (x.onlyFor == "" || x.onlyFor == j.Property) && (j.Property != "C07" || x.augment) {
+			isDev := false
+			for _, f := range x.files {
+				isDev = isDev || strings.Contains(f, "deviation ")
+			}
+			// (C07 runs the templates about augments, C08 those that have a deviation)
+			if (x.onlyFor == "" || x.onlyFor == j.Property) && (j.Property != "C07" || x.augment) && (j.Property != "C08" || isDev) {
 				pool = append(pool, x)
 			}
 		}
